@@ -4,7 +4,7 @@
    Streams are `list N` (bytes_ok: every element < 256); a reader returns `Ok value rest` or `Err kind`. *)
 From Coq Require Import NArith.
 From BV Require Import lib.Ints gen.Params_gen model.SerBase model.SerTx model.Codec model.CodecMoney
-  proofs.SerBaseLemmas proofs.SerTxLemmas proofs.CodecLemmas proofs.CodecBitsLemmas.
+  proofs.SerBaseLemmas proofs.SerTxLemmas proofs.CodecLemmas proofs.CodecBitsLemmas proofs.CodecB58Lemmas proofs.CodecMoneyLemmas.
 Local Open Scope Z_scope.
 
 (* ---- CompactSize (MAX_SIZE is the constant of the compiled tree) ---- *)
@@ -139,6 +139,21 @@ Theorem C48_base32_roundtrip : forall input, bytes_ok input ->
   exists s, encode_base32 true input = Some s /\ decode_base32 s = Some input.
 Proof. exact base32_roundtrip. Qed.
 Print Assumptions C48_base32_roundtrip.
+
+(* ---- base58 ----
+   EncodeBase58 / DecodeBase58 transcribed with their big-number arrays (b58[size], b256[size], the
+   carry loops with the `length` short cut, the asserts).  `Some (Some x)`: decoded to x and no
+   assert(carry == 0) fired; the arrays are always large enough (138/100 and 733/1000 bounds proved). *)
+Theorem C48_base58_roundtrip : forall input max_ret_len, bytes_ok input -> Z.of_nat (length input) <= max_ret_len ->
+  exists s, encode_base58 input = Some s /\ decode_base58 s max_ret_len = Some (Some input).
+Proof. exact base58_roundtrip. Qed.
+Print Assumptions C48_base58_roundtrip.
+
+(* ---- money strings ---- every amount in the money range (MAX_MONEY, COIN from the compiled tree)
+   survives FormatMoney then ParseMoney *)
+Theorem C48_money_roundtrip : forall n, 0 <= n <= MAX_MONEY -> parse_money (format_money n) = Some n.
+Proof. exact money_roundtrip. Qed.
+Print Assumptions C48_money_roundtrip.
 
 (* non-vacuity: a two-input segwit transaction with one witness stack goes through; the same bytes
    with the flags byte changed to 3 are rejected as unknown optional data; the extended encoding of
